@@ -57,6 +57,7 @@ type World struct {
 	structKeys map[*types.Named]string
 	wfReads    map[string]bool
 	TrustedAxioms []string
+	reach      map[string]map[string]bool
 }
 
 func pkgShort(p *types.Package) string {
@@ -358,6 +359,14 @@ func (w *World) initGhosts() {
 				s, ok = SSeqRef, true
 			case "ref", "any":
 				s, ok = SRef, true
+			}
+			if f := strings.Fields(g.Type); len(f) == 2 && f[0] == "refmap" {
+				if vt, ok2 := w.parseTypeText(f[1], nil); ok2 {
+					if vs, ok3 := w.SortOf(vt); ok3 {
+						s, ok = ArrSort(SRef, vs), true
+						ty = types.NewMap(types.NewInterfaceType(nil, nil), vt)
+					}
+				}
 			}
 		}
 		if !ok {
